@@ -310,6 +310,16 @@ def run(ctx):
                 part.add("nontrivial", k)
             part.add("outcomes", res.GetUnit())
 
+        # powers asked with the exponent held in a float (n / 2 ...) before anything else has been composed: refused or
+        # not, they must not decide how the integer compositions render afterwards
+        for c, u in BASIS:
+            for e in (2.0, 3.0, -1.0, 1.0):
+                for f in (lambda: ObtainQuantity(u, c) ** e, lambda: Scalar(2.0, u, c) ** e):
+                    try:
+                        f()
+                    except Exception:
+                        pass
+        part.count("float_exponent_requests_first", 8 * len(BASIS))
         graph, transitions = algebra.explore(db, depth, BASIS, VALUES, on_transition=on_transition, reciprocals=True)
         # the same exploration again in this process AFTER every simple table quantity has rendered all
         # its strings (table symbols such as m2, m/s, 1/s coincide with derived unit strings)
